@@ -218,6 +218,28 @@ def h_byteswap_convert(nbytes, kind):
     return h
 
 
+def h_byteswap_code(code, count):
+    """byteswap with a struct-code pattern converts the little-endian packing of that code into the big-endian one (standard sizes, as pack uses)"""
+    def h(K):
+        import bitstring
+        size = {'b': 1, 'B': 1, 'h': 2, 'H': 2, 'l': 4, 'L': 4, 'i': 4, 'I': 4, 'q': 8, 'Q': 8}[code]
+        signed = code.islower()
+        lo, hi = (-(1 << (8 * size - 1)), (1 << (8 * size - 1)) - 1) if signed else (0, (1 << (8 * size)) - 1)
+        vals = [K.int(f'v{j}', lo, hi) for j in range(count)]
+        le = call(lambda: bitstring.pack(f'<{count}{code}', *vals))
+        be = call(lambda: bitstring.pack(f'>{count}{code}', *vals))
+        if not (le.ok and be.ok):
+            return K.fail('pack raised', exc=le.excname or be.excname)
+        s = bitstring.BitArray(le.value)
+        how = K.choice('pattern', [code, f'{count}{code}', '<' + code, '@' + code])
+        r = call(lambda: s.byteswap(how))
+        if not r.ok:
+            return K.fail('byteswap raised', exc=r.excname, pattern=how)
+        want_reps = count if how != f'{count}{code}' else 1
+        return K.check(same(raw(s), raw(be.value)) and r.value == want_reps, 'byteswap with a struct code does not turn the little-endian packing into the big-endian one', pattern=how, got=raw(s), expected=raw(be.value), repeats=r.value)
+    return h
+
+
 def h_array_byteswap(dtype, w, k):
     def h(K):
         import bitstring
@@ -269,6 +291,8 @@ def conditions(tier):
         add(f'C18.byteswap-convert[uint,{nb} bytes]', h_byteswap_convert(nb, 'uint'), f'every {8 * nb}-bit unsigned value')
     for nb in ([3, 4] if q else [0, 1, 3, 4, 6, 8]):
         add(f'C18.byteswap-involution[{nb} bytes]', h_byteswap_convert(nb, 'pattern'), f'all {8 * nb}-bit contents x 8 byteswap patterns')
+    for code in (['h', 'l', 'L'] if q else ['b', 'B', 'h', 'H', 'l', 'L', 'i', 'I', 'q', 'Q']):
+        add(f'C18.byteswap-code[{code}]', h_byteswap_code(code, 2), 'every pair of values of the code x 4 spellings of the pattern', code=code)
     for dtype, w in [('uint16', 16), ('intle24', 24), ('uint5', 5), ('float32', 32)]:
         add(f'C18.array-byteswap[{dtype}]', h_array_byteswap(dtype, w, 2), f'all data of two {w}-bit items')
     return conds
